@@ -236,8 +236,10 @@ def outputEngine : Engine := fun inp obs =>
         -- 2. JSON carries the same numbers
         let e1 := v1Expected oc wits groups
         let e2 := v2Expected oc
-        if v1 != e1 then .viol "C11,C19" s!"JSON v1 {v1} differs from the measurement {e1}"
-        else if v2 != e2 then .viol "C11,C19" s!"JSON v2 {v2} differs from the metric table / measurement {e2}"
+        -- a saturated counter must appear as its capacity in JSON (C05)
+        let tags := if nums.any (fun n => n == 4294967295 || n == 18446744073709551615) then "C11,C19,C05" else "C11,C19"
+        if v1 != e1 then .viol tags s!"JSON v1 {v1} differs from the measurement {e1}"
+        else if v2 != e2 then .viol tags s!"JSON v2 {v2} differs from the metric table / measurement {e2}"
         else if m1 != tab1 || m2 != tab2 then .diff "(table bytes)" "table layout differs from the model (values, units and markers agree)"
         else .ok
     | _, _, _, _, _, _ => .bad "decode"
